@@ -14,7 +14,7 @@ import (
 func init() {
 	register("C11", &ruleSet{
 		run:    runC11,
-		floors: map[string]int{"O1": 1, "O2": 3, "O3": 9, "O4": 1, "O5": 3},
+		floors: map[string]int{"O1": 1, "O2": 3, "O3": 9, "O4": 1, "O5": 3, "O6": 5},
 		explain: "Decides structurally that the configured order reaches the queue and that the queue's two ends are used consistently: (O1) in the queue-limiter " +
 			"constructor the backlog's ordering field is stored from the config's ordering field read after defaulting (a constant is a violation); (O2) if push " +
 			"inserts at end P of the list, the FIFO case of the selection reads the opposite end and the LIFO case the same end, the selection is exhaustive over " +
@@ -68,6 +68,8 @@ func runC11(p *Prog, l *Ledger) {
 	l.Rule("O2", "ends agree: push inserts at one end; FIFO selection reads the opposite end, LIFO the same end; selection exhaustive over the two constants; eviction removes exactly the selected element under the queue mutex")
 	l.Rule("O5", "the line is made of the callers still waiting (decided by the C12/O2 rule on the same tree): a caller that leaves Acquire has taken its own element out exactly once, so nobody who has gone keeps a place ahead of those still waiting")
 	importObligations(p, l, "C12", "O5", func(o *Obligation) bool { return o.Rule == "O2" })
+	l.Rule("O6", "the freed capacity goes to the selected waiter (decided by the C10/O3 and O5 rules on the same tree): every completion reaches the hand-off after the delegate has released, and the hand-off is one critical section with arrivals - otherwise the next arrival takes the capacity ahead of everybody queued")
+	importObligations(p, l, "C10", "O6", func(o *Obligation) bool { return (o.Rule == "O3" || o.Rule == "O5") && strings.Contains(o.Key, "limiter.Queue") })
 	l.Rule("O3", "constructors and pools select the order their name states; the default ordering is LIFO")
 	l.Rule("O4", "unblock (peek, acquire for the waiter, evict, deliver) is one exclusive critical section of the limiter mutex")
 	l.NotCovered = []string{"that arrival order equals push order (C10/O5a)", "scheduler effects on which woken caller proceeds first"}
